@@ -73,7 +73,7 @@ def vs_overlay():
 
 
 def build_harness(name, pkgs, test_pkg, harness_files, instrument=True, adds=None, seams=None,
-                  race=False, hide_repo_tests=True, extra_overlay=None, keep_time=None, tags=None):
+                  race=False, hide_repo_tests=True, extra_overlay=None, keep_time=None, tags=None, captures=None):
     """Instrument pkgs (list of repo-relative dirs), overlay harness files into test_pkg and build a
     test binary.  harness_files: {filename-in-test_pkg: real path}.  adds: {repo-relative virtual
     path: real path} non-test files that are loaded into their package and instrumented.
@@ -96,6 +96,8 @@ def build_harness(name, pkgs, test_pkg, harness_files, instrument=True, adds=Non
             cmd += ["-add", os.path.join(REPO, v) + "=" + real]
         for s in (seams or []):
             cmd += ["-seam", s]
+        for s in (captures or []):
+            cmd += ["-capture", s]
         if keep_time:
             cmd += ["-keep-time", ",".join(keep_time)]
         run(cmd, cwd=REPO)
